@@ -86,6 +86,7 @@ func cmdDump(args []string) int {
 	out := fs.String("out", "/tmp/fvc-dump", "")
 	solve := fs.Bool("solve", true, "")
 	sweep := fs.Bool("sweep", false, "")
+	reach := fs.Bool("reach", false, "also check that every return path is reachable (anti-vacuity review)")
 	timeout := fs.Int("timeout", 10000, "")
 	fs.Parse(args)
 	e, err := setupEngine(*repo, *verif, nil)
@@ -94,6 +95,7 @@ func cmdDump(args []string) int {
 		return 2
 	}
 	e.sweep = *sweep
+	e.reach = *reach
 	os.MkdirAll(*out, 0o755)
 	rc := 0
 	for _, cf := range e.files {
